@@ -35,14 +35,14 @@ INVS = ("TypeOK SameTraceAsParent RootHasNoParent FreshSpanId FlagsLevel1Only Sa
         "DroppedNeverExported OnlyListedDeviations")
 PROPS = "PROPERTIES ThreadsIsolated StartRules"
 ACTIONS = ["MakeRemote", "DoStart", "DoWith", "ReleaseScope", "DoEnd"]
-WITNESSES = ["WitInherit", "WitInheritRO", "WitRootOverActive", "WitRootAndSpan", "WitScOverActive",
-             "WitCtxOverActive", "WitInvalidScFallsBack", "WitEmptyCtxFallsBack", "WitNoopParent",
-             "WitSamplerTS", "WitParentTS", "WitCrossThread", "WitGrandChild", "WitEndedParent"]
+WITNESSES = ["Inherit", "InheritRO", "RootOverActive", "RootAndSpan", "ScOverActive", "CtxOverActive",
+             "InvalidScFallsBack", "EmptyCtxFallsBack", "NoopParent", "SamplerTS", "ParentTS", "GrandChild",
+             "EndedParent", "CrossThread"]
 CFG = """CONSTANTS NThr = %d  MaxEnt = %d  MaxRemote = %d  MaxDepth = %d  MaxOps = %d
           Samplers = {%s}
           RemFlags = {%s}  RemForms = {%s}
           Dev = {%s}  Hist = %s
-INIT Init
+INIT %s
 NEXT %s
 VIEW %s
 INVARIANTS %s
@@ -56,12 +56,12 @@ def _q(xs):
 
 
 def _cfg(ctx, name, shape, samplers, flags, forms, dev=(), hist=False, nxt="Next", view="ViewState",
-         invs=INVS, props=PROPS):
+         invs=INVS, props=PROPS, init="Init"):
     nthr, ment, mrem, mdep, mops = shape
     p = ctx.rundir.file(name)
     with open(p, "w") as f:
         f.write(CFG % (nthr, ment, mrem, mdep, mops, _q(samplers), ", ".join(map(str, flags)), _q(forms),
-                       _q(sorted(dev)), "TRUE" if hist else "FALSE", nxt, view, invs, props))
+                       _q(sorted(dev)), "TRUE" if hist else "FALSE", init, nxt, view, invs, props))
     return p
 
 
@@ -71,11 +71,12 @@ def model_check(ctx, known):
     s5 = ["off", "pb_off", "rmid", "c_RS_0", "c_DROP_n"]
     runs = [  # (name, shape, samplers, flags, forms, coverage)
         ("1thr-ent3-depth2", (1, 3, 1, 2, 6), s4, [0, 1, 255], ["valid", "zero"], True),
-        ("2thr-ent3-depth1", (2, 3, 1, 1, 6), s4, [0, 1, 255], ["valid", "zero"], False),
-        ("2thr-ent2-all-samplers", (2, 2, 1, 2, 6), ALL_S, ALL_F, ALL_FORMS, False),
+        ("2thr-ent2-all-samplers", (2, 2, 1, 1, 5), ALL_S, ALL_F, ALL_FORMS, False),
     ]
     if thorough:
         runs += [
+            ("2thr-ent3-depth1", (2, 3, 1, 1, 6), s4, [0, 1, 255], ["valid", "zero"], False),
+            ("2thr-ent2-all-depth2", (2, 2, 1, 2, 6), ALL_S, ALL_F, ALL_FORMS, False),
             ("1thr-ent3-all", (1, 3, 1, 2, 6), ALL_S, ALL_F, ALL_FORMS, False),
             ("2thr-ent3-depth2", (2, 3, 1, 2, 6), s4, [0, 1, 255], ["valid", "zero"], False),
             ("2thr-ent3-2remotes", (2, 3, 2, 1, 6), s5, [0, 3], ["valid", "nospan"], False),
@@ -85,7 +86,7 @@ def model_check(ctx, known):
     jobs = []
     for fam, dev in fams:
         for (name, shape, ss, fl, fo, cov) in runs:
-            if fam != "ideal" and (not thorough) and name != "1thr-ent3-depth2":
+            if fam != "ideal" and (not thorough) and name != "2thr-ent2-all-samplers":
                 continue
             c = _cfg(ctx, "mc-%s-%s.cfg" % (fam, name), shape, ss, fl, fo, dev=dev)
             jobs.append((fam, name, c, cov and fam == "ideal"))
@@ -94,7 +95,7 @@ def model_check(ctx, known):
         fam, name, c, cov = j
         return j, tlc.tlc(MODULE, c, rundir=ctx.rundir.path, workers=4, timeout_s=1500 if thorough else 150,
                           coverage=cov, xmx="6g", tag="mc-%s-%s" % (fam, name))
-    with cf.ThreadPoolExecutor(max_workers=3 if thorough else 2) as ex:
+    with cf.ThreadPoolExecutor(max_workers=3) as ex:
         for (fam, name, c, cov), r in ex.map(one, jobs):
             ctx.add_tlc("%s %s" % (fam, name), r)
             if r.status == "timeout":
@@ -138,46 +139,62 @@ def generate(ctx, known):
         stats["%s/%s" % (fam, src)] = len(bs)
         for b in bs:
             behs.append({"id": len(behs), "fam": fam, "src": src, "steps": b})
+    jobs = []
     for fam, dev in fams:
         # (a) all behaviours of length <= 2: every (first op) x (start with every sampler and mode)
-        c = _cfg(ctx, "g1.cfg", (1, 3, 1, 1, 2), ALL_S, ALL_F, ALL_FORMS, dev=dev, hist=True, view="View",
+        c = _cfg(ctx, "g1-%s.cfg" % fam, (1, 3, 1, 1, 2), ALL_S, ALL_F, ALL_FORMS, dev=dev, hist=True, view="View",
                  invs="EmitAll", props="")
-        r = tlc.tlc(MODULE, c, rundir=ctx.rundir.path, workers=4, timeout_s=300, tag="g1")
-        tlc.must_ok(r, "generation (all behaviours to depth 2)")
-        ctx.add_tlc("generate depth2 all (%s)" % fam, r)
-        add(fam, "all-depth2", r.printed("BEH"))
+        if thorough or fam == "ideal":
+            jobs.append((fam, "all-depth2", c, None))
         # (b) one behaviour per distinct abstract state, 2 threads
-        shape = (2, 3, 1, 2, 4) if thorough else (2, 3, 1, 1, 3)
-        fl, fo = (ALL_F, ALL_FORMS) if thorough else ([0, 1, 255], ["valid", "zero", "nospan"])
-        c = _cfg(ctx, "g2.cfg", shape, ALL_S, fl, fo, dev=dev, hist=True, view="ViewState", invs="EmitAll", props="")
-        r = tlc.tlc(MODULE, c, rundir=ctx.rundir.path, workers=4, timeout_s=900, tag="g2")
-        tlc.must_ok(r, "generation (state cover)")
-        ctx.add_tlc("generate state-cover %s (%s)" % (shape, fam), r)
-        add(fam, "state-cover", r.printed("BEH"))
+        if thorough or fam == "ideal":
+            shape = (2, 3, 1, 2, 4) if thorough else (2, 3, 1, 1, 3)
+            fl, fo = (ALL_F, ALL_FORMS) if thorough else ([0, 1, 255], ["valid", "zero", "nospan"])
+            c = _cfg(ctx, "g2-%s.cfg" % fam, shape, ALL_S, fl, fo, dev=dev, hist=True, view="ViewState", invs="EmitAll",
+                     props="")
+            jobs.append((fam, "state-cover", c, None))
         # (c) random walks: 12 operations, 3 threads, 6 entities
-        c = _cfg(ctx, "g3.cfg", (3, 6, 2, 3, 12), ALL_S, ALL_F, ALL_FORMS, dev=dev, hist=True, nxt="NextGen",
+        c = _cfg(ctx, "g3-%s.cfg" % fam, (3, 6, 2, 3, 12), ALL_S, ALL_F, ALL_FORMS, dev=dev, hist=True, nxt="NextGen",
                  view="View", invs="EmitDone", props="")
-        r = tlc.tlc(MODULE, c, rundir=ctx.rundir.path, workers=4, timeout_s=900,
-                    simulate={"num": 1500 if thorough else 150, "depth": 15}, seed=ctx.seed * 7 + 3, tag="g3")
-        tlc.must_ok(r, "generation (random walks)")
-        add(fam, "random-walk", r.printed("BEH"))
-    # (d) witnesses of rare conditions (ideal family; a shortest behaviour each)
-    def wit(w):
-        if w == "WitCrossThread":
-            shape, ss, fl, fo = (2, 3, 0, 1, 5), ["on"], [1], ["valid"]
-        else:
-            shape, ss, fl, fo = (1, 3, 1, 1, 4), ["on", "off", "c_RO_0"], [1, 255], ["valid", "zero"]
-        c = _cfg(ctx, "w-%s.cfg" % w, shape, ss, fl, fo, dev=set(), hist=True, view="ViewW", invs=w, props="")
-        return w, tlc.tlc(MODULE, c, rundir=ctx.rundir.path, workers=1, timeout_s=300, tag="w-" + w, xmx="3g")
+        jobs.append((fam, "random-walk", c, {"num": 1500 if thorough else 100, "depth": 15}))
+
+    def gen(j):
+        fam, src, c, sim = j
+        return j, tlc.tlc(MODULE, c, rundir=ctx.rundir.path, workers=4, timeout_s=1200, simulate=sim,
+                          seed=(ctx.seed * 7 + 3) if sim else None, tag="gen-%s-%s" % (fam, src))
+    ideal_keys = set()
+    with cf.ThreadPoolExecutor(max_workers=3) as ex:
+        for (fam, src, c, sim), r in ex.map(gen, jobs):
+            tlc.must_ok(r, "generation %s/%s" % (fam, src))
+            if not sim:
+                ctx.add_tlc("generate %s (%s)" % (src, fam), r)
+            bs = r.printed("BEH")
+            if fam == "ideal":
+                ideal_keys.update(json.dumps(b, sort_keys=True) for b in bs)
+            else:   # the as-implemented family repeats every behaviour that never meets a deviation
+                bs = [b for b in bs if json.dumps(b, sort_keys=True) not in ideal_keys]
+            add(fam, src, bs)
+    # (d) witnesses of rare conditions: one BFS prints a shortest behaviour per condition (ideal family)
+    wjobs = [("w1", (1, 3, 1, 1, 4), ["on", "off", "c_RO_0"], [1, 255], ["valid", "zero"]),
+             ("w2", (2, 3, 0, 1, 5), ["on"], [1], ["valid"])]
+
+    def wit(j):
+        name, shape, ss, fl, fo = j
+        c = _cfg(ctx, "%s.cfg" % name, shape, ss, fl, fo, dev=set(), hist=True, view="ViewW", invs="WitAll", props="",
+                 init="InitW")
+        return tlc.tlc(MODULE, c, rundir=ctx.rundir.path, workers=1, timeout_s=600, tag=name, xmx="3g")
     wl = {}
-    with cf.ThreadPoolExecutor(max_workers=5) as ex:
-        for w, r in ex.map(wit, WITNESSES):
-            b = r.printed("BEH")
-            if r.status != "invariant" or not b:
-                raise Broken("witness %s not reachable in the model (vacuity): %s" % (w, r.status))
-            ctx.add_tlc("witness " + w, r)
-            wl[w] = len(b[0])
-            behs.append({"id": len(behs), "fam": "ideal", "src": w, "steps": b[0]})
+    with cf.ThreadPoolExecutor(max_workers=2) as ex:
+        for r in ex.map(wit, wjobs):
+            tlc.must_ok(r, "witness generation")
+            ctx.add_tlc("witness run", r)
+            for o in r.printed("BEH"):
+                if o["w"] not in wl:
+                    wl[o["w"]] = len(o["steps"])
+                    behs.append({"id": len(behs), "fam": "ideal", "src": "Wit" + o["w"], "steps": o["steps"]})
+    missing = [w for w in WITNESSES if w not in wl]
+    if missing:
+        raise Broken("witness conditions not reachable in the model (vacuity): %s" % missing)
     ctx.extra["witness_lengths"] = wl
     ctx.extra["behaviours_generated"] = stats
     return behs
@@ -217,6 +234,7 @@ def replay_behs(ctx, exe, behs, idgen, tag):
 def classify(ctx, behs, problems, idgen):
     byid = {b["id"]: b for b in behs}
     trunc = 0
+    shown = 0
     for o in problems:
         b = byid[o["beh"]]
         rep = {"behaviour": b, "idgen": idgen, "seed": ctx.seed, "problem": o}
@@ -230,7 +248,11 @@ def classify(ctx, behs, problems, idgen):
         elif o["kind"] == "alt":
             trunc += 1      # the code took the other branch of a don't-care band; the model follows it elsewhere
         else:
-            ctx.violation("%s: %s; observed %s" % (where, o["what"], json.dumps(o.get("got"))), rep)
+            if shown < 6:      # every mismatch is a violation; list the first few, count the rest
+                ctx.violation("%s: %s; observed %s" % (where, o["what"], json.dumps(o.get("got"))), rep)
+            shown += 1
+    if shown > 6:
+        ctx.extra["violations_not_listed_" + idgen] = shown - 6
     return trunc
 
 
@@ -316,7 +338,7 @@ def record_and_validate(ctx, exe, known):
         # accepted only through a listed deviation (the trace spec was given Dev = known)
         ctx.deviation(d, "random program on the real tracer is a behaviour of SpanIdentity only with deviation %s" % d,
                       {"mode": "record", "seed": ctx.seed, "n": n})
-    for rj in res["rejected"]:
+    for rj in res["rejected"][:3]:
         ev, at = rj["events"], rj["at"]
         ctx.violation("SpanIdentityTrace rejects a real execution at event %d: %s" % (
             at, json.dumps(ev[at]) if at < len(ev) else "?"), {"monitor": "SpanIdentityTrace", "events": ev, "at": at,
@@ -325,6 +347,17 @@ def record_and_validate(ctx, exe, known):
         ex0 = trace.split_executions(lines)[0]
         ctx.sample({"kind": "random program on the real tracer, validated by SpanIdentityTrace", "events":
                     [json.loads(x) for x in ex0[:10]]})
+        if not ctx.violations:
+            # binding check, code -> spec direction: one corrupted logged field must make the trace spec reject
+            evs = [json.loads(x) for x in ex0]
+            st = next((e for e in evs if e["e"] == "start"), None)
+            if st is not None:
+                st["got"]["ts"] = (st["got"]["ts"] + 1) % 3
+                r2 = spantv.validate(ctx, "SpanIdentityTrace", cfgp, [json.dumps(e) for e in evs], parallel=1, tag="c05can")
+                ctx.traces -= 1
+                if not r2["rejected"]:
+                    raise Broken("canary: a log with a corrupted trace state was ACCEPTED by SpanIdentityTrace")
+                ctx.extra["trace_canary_rejected_at_event"] = r2["rejected"][0]["at"]
     return res
 
 
@@ -340,19 +373,25 @@ def run(ctx):
                          "replayed on the real tracer (each with the counting and the random id generator) + random programs validated "
                          "by the trace spec. distinct_nontrivial: distinct behaviours/programs containing at least one StartSpan")
     exe = build.harness("c05_identity", ["c05_identity.cc"], "asan")
+    log("C05: harness built at %.0fs" % ctx.timer.s())
     model_check(ctx, known)
+    log("C05: model checking done at %.0fs" % ctx.timer.s())
     behs = generate(ctx, known)
+    log("C05: %d behaviours generated at %.0fs" % (len(behs), ctx.timer.s()))
     coverage_stats(ctx, behs)
-    canary(ctx, exe, behs)
     # ---- spec -> code -----------------------------------------------------------------------------
     probs, summ = replay_behs(ctx, exe, behs, "counter", "counter")
     t1 = classify(ctx, behs, probs, "counter")
     nornd = [b for b in behs if not any(s.get("s") == "rmid" for s in b["steps"])]
+    if ctx.tier == "quick":
+        nornd = [b for b in nornd if b["src"] not in ("all-depth2", "state-cover") or b["id"] % 3 == ctx.seed % 3]
     probs2, summ2 = replay_behs(ctx, exe, nornd, "random", "random")
     t2 = classify(ctx, nornd, probs2, "random")
     single = [b for b in behs if b["src"] in ("all-depth2",)][:: 40 if ctx.tier == "quick" else 8]
     probs3, summ3 = replay_behs(ctx, exe, single, "fork", "fork")
     classify(ctx, single, probs3, "fork")
+    if not ctx.violations:          # (on a tree that already violates the property a canary proves nothing)
+        canary(ctx, exe, behs)
     ctx.traces += summ.get("behaviours", 0) + summ2.get("behaviours", 0) + summ3.get("behaviours", 0)
     ctx.extra["replayed_counter_idgen"] = summ
     ctx.extra["replayed_random_idgen"] = summ2
@@ -365,6 +404,7 @@ def run(ctx):
         b = next((x for x in behs if x["src"] == src), None)
         if b:
             ctx.sample({"kind": "TLC behaviour replayed on the real tracer (%s)" % src, "steps": b["steps"][:8]})
+    log("C05: replay done at %.0fs" % ctx.timer.s())
     # ---- code -> spec -----------------------------------------------------------------------------
     record_and_validate(ctx, exe, known)
     ctx.evaluations = ctx.traces
